@@ -818,6 +818,30 @@ add({"name": "space_add_initial_gap", "file": "dfs/cmd_space.cc",
                (r"root\.disc_format\(\)", "root->disc_format", ">=0"), (r"root\.catalog_sectors\(\)", "SpaceRoot_catalog_sectors(root)", ">=0"),
                (r"\bmaybe_gap\(", "space_maybe_gap_v(", 1)]})
 
+add({"name": "space_entry_gap", "file": "dfs/cmd_space.cc",
+     "anchor": r"(?:auto last_sec = catalogs\[c\]\[entry\]\.last_sector\(\);|const DFS::CatalogEntry& ce\(catalogs\[c\]\[entry\]\);)",
+     "region_end": r"\}\s*\}\s*\}\s*if \(!added_initial_gap\)",
+     "sig": "static void space_entry_gap(const struct CatalogEntry *ce, sector_count_type next_start)",
+     "rules": [(r"auto last_sec = catalogs\[c\]\[entry\]\.last_sector\(\);", "sector_count_type last_sec = CatalogEntry_last_sector(ce);", "=0or1"),
+               (r"const DFS::CatalogEntry& ce\(catalogs\[c\]\[entry\]\);", "/* ce: parameter (catalogs[c][entry]) */", "=0or1"),
+               (r"const DFS::sector_count_type (\w+) =", r"const sector_count_type \1 =", ">=0"),
+               (r"ce\.file_length\(\)", "CatalogEntry_file_length(ce)", ">=0"), (r"ce\.last_sector\(\)", "CatalogEntry_last_sector(ce)", ">=0"),
+               (r"ce\.start_sector\(\)", "CatalogEntry_start_sector(ce)", ">=0"),
+               (r"start_sec_of_next\(c, entry\)", "next_start", 1), (r"\bmaybe_gap\(", "space_maybe_gap_v(", 1)]})
+add({"name": "Catalog_map_sectors", "file": "dfs/dfs_catalog.cc",
+     "anchor": r"void Catalog::map_sectors\(const VolumeSelector& vol,\s*unsigned long catalog_origin_lba,\s*unsigned long data_origin_lba,\s*DFS::SectorMap\* out\) const",
+     "sig": "static void Catalog_map_sectors(const struct CatalogM *self, unsigned long catalog_origin_lba, unsigned long data_origin_lba)",
+     "rules": [(r"DFS::sector_count_type sec = 0;", "sector_count_type sec = 0;", 1), (r"\bcatalog_sectors\(\)", "self->catalog_sectors", 1),
+               (r"(for \(sector_count_type sec = 0;\s*sec < self->catalog_sectors;\s*\+\+sec\))", r"\1 MAP_CAT_LOOP_CONTRACT", 1),
+               (r"out->add_catalog_sector\(DFS::sector_count\(([^;]*)\),\s*vol\);", r"map_add_catalog_sector(sector_count(\1));", 1),
+               (r"for \(const auto& entry : entries\(\)\)", "for (size_t ei = 0; ei < self->entries_n; ++ei) MAP_FILE_LOOP_CONTRACT", 1),
+               (r"ParsedFileName file_name;", "/* file_name: label text dropped */", 1), (r"file_name\.(vol|dir|name) = [^;]*;", "", 3),
+               (r"const auto (\w+) =", r"const unsigned long \1 =", ">=0"),
+               (r"entry\.file_length\(\)", "CatalogEntry_file_length(&h_entries[ei])", ">=0"), (r"entry\.last_sector\(\)", "CatalogEntry_last_sector(&h_entries[ei])", ">=0"),
+               (r"entry\.start_sector\(\)", "CatalogEntry_start_sector(&h_entries[ei])", ">=1"),
+               (r"out->add_file_sectors\(DFS::sector_count\(([^;]*?)\),\s*DFS::sector_count\(([^;]*?)\),\s*file_name\);", r"map_add_file_sectors(ei, sector_count(\1), sector_count(\2));", 1)],
+     "dropped": ["the label (volume, directory, name) given to each sector"]})
+
 # ---- cmd_cat.cc (C02: "current directory first, then by directory and name, case-insensitively") ---------------------
 add({"name": "cat_mapdir", "file": "dfs/cmd_cat.cc", "anchor": r"\[&ctx\] \(char dir\) -> char",
      "sig": "static char cat_mapdir(char ctx_current_directory, char dir)",
